@@ -333,7 +333,7 @@ def case_strategy(draw):
     text, feats = draw(rendering(doc))
     text2, feats2 = draw(rendering(doc))
     return dict(doc=doc, text=text, feats=feats, text2=text2, feats2=feats2,
-                source=draw(st.sampled_from(['path', 'text-fileobj', 'binary-fileobj'])), raw=draw(st.booleans()))
+                source=draw(st.sampled_from(['path', 'text-fileobj', 'binary-fileobj', 'binary-update-fileobj'])), raw=draw(st.booleans()))
 
 
 # ------------------------------------------------------------------ oracle
@@ -344,7 +344,7 @@ def read(text, source, raw, d, name='f.par'):
         f.write(text)
     if source == 'path':
         return call(yanny, fn, raw=raw)
-    mode = 'r' if source == 'text-fileobj' else 'rb'
+    mode = {'text-fileobj': 'r', 'binary-fileobj': 'rb', 'binary-update-fileobj': 'r+b'}[source]
     with open(fn, mode) as f:
         return call(yanny, f, raw=raw)
 
